@@ -73,7 +73,7 @@ class ModbusAsciiFramer(ModbusFramer):
         if end != -1:
             self._header['len'] = end
             self._header['uid'] = int(self._buffer[1:3], 16)
-            self._header['lrc'] = int(self._buffer[end - 2:end], 16)
+            self._header['lrc'] = struct.unpack('>B', a2b_hex(self._buffer[end - 2:end]))[0]
             data = a2b_hex(self._buffer[start + 1:end - 2])
             return checkLRC(data, self._header['lrc'])
         return False
